@@ -1,3 +1,4 @@
-"""C06 is split in two packages: C06a (mutating / in-place / copying algorithms and sorts) and
-C06b (non-mutating queries, binary searches, set operations, min/max, numeric)."""
-PARTS = ["C06a", "C06b"]
+"""C06 is split in three packages: C06a (mutating / in-place / copying algorithms and sorts), C06b (non-mutating
+queries, binary searches, set operations, min/max, numeric folds) and C06c (the integer functions of numeric.hpp —
+gcd, lcm, midpoint, saturation — whose model and proofs are shared with C14)."""
+PARTS = ["C06a", "C06b", "C06c"]
